@@ -11,6 +11,7 @@ import SamVerif.Model.Dispatch
 import SamVerif.Spec.RedisFlags
 import SamVerif.Gen.Upstream
 import SamVerif.Gen.ScanText
+import SamVerif.Model.ScanWalk
 namespace SamVerif.Props.C14
 open SamVerif SamVerif.Dispatch
 
@@ -182,6 +183,44 @@ theorem scan_walk_matches_model :
 
 end SamVerif.Props.C14
 
+namespace SamVerif.Props.C14s
+open SamVerif.ScanWalk
+
+/-- **SCAN is sent to masters only, and to every master** (under every read strategy): once the routing table knows any slot, the
+nodes a SCAN iteration walks over are exactly the masters of the table — no replica, no configured host that owns nothing, and no
+master left out (so every key is met once). -/
+theorem scan_walks_exactly_the_masters (table : List (Option Nat)) (hosts : List Nat) (h : ∃ m, some m ∈ table) (a : Nat) :
+    a ∈ scanAddrs table hosts ↔ some a ∈ table := by
+  obtain ⟨m, hm⟩ := h
+  have hne : ((table.filterMap id).eraseDups).isEmpty = false := by
+    have : m ∈ (table.filterMap id).eraseDups := by
+      rw [List.mem_eraseDups, List.mem_filterMap]; exact ⟨some m, hm, rfl⟩
+    cases hl : (table.filterMap id).eraseDups with
+    | nil => rw [hl] at this; cases this
+    | cons x xs => rfl
+  unfold scanAddrs
+  simp only [hne, Bool.false_eq_true, ↓reduceIte, List.mem_mergeSort, List.mem_eraseDups, List.mem_filterMap, id]
+  constructor
+  · rintro ⟨x, hx, rfl⟩; exact hx
+  · intro ha; exact ⟨some a, ha, rfl⟩
+
+/-- with no slot known the walk falls back to the configured hosts -/
+theorem scan_falls_back_to_hosts (table : List (Option Nat)) (hosts : List Nat) (h : ∀ m, some m ∉ table) :
+    scanAddrs table hosts = hosts := by
+  have : (table.filterMap id) = [] := by
+    rw [List.filterMap_eq_nil_iff]
+    intro x hx
+    cases x with
+    | none => rfl
+    | some m => exact absurd hx (h m)
+  simp [scanAddrs, this]
+
+/-- the hypothesis is met by any table that knows a slot; a replica (9) among the configured hosts is not walked -/
+example : 9 ∉ scanAddrs [some 7, none, some 3, some 7] [1, 2, 3, 7, 9] := by
+  rw [scan_walks_exactly_the_masters _ _ ⟨7, by simp⟩]; simp
+
+end SamVerif.Props.C14s
+
 #print axioms SamVerif.Props.C14.readonly_sound
 #print axioms SamVerif.Props.C14.write_goes_to_master
 #print axioms SamVerif.Props.C14.master_strategy_only_master
@@ -194,3 +233,5 @@ end SamVerif.Props.C14
 #print axioms SamVerif.Props.C14.normaliser_is_ascii
 #print axioms SamVerif.Props.C14.code_matches_model
 #print axioms SamVerif.Props.C14.scan_walk_matches_model
+#print axioms SamVerif.Props.C14s.scan_walks_exactly_the_masters
+#print axioms SamVerif.Props.C14s.scan_falls_back_to_hosts
